@@ -12,7 +12,7 @@ META = {
                    'interp(old, blend(src, old), w) / over_in(src, old, w) with whole-word combinators on operands of one pixel; R03.6 every '
                    'float->byte alpha conversion saturates at 255 (a scale above 256 breaks r,g,b <= a by overflowing into the neighbouring '
                    'channel); R03.5 the solid colour is scaled by the whole-word alpha_mul.',
-    'decides': ['R18.1 premultiplying conversions', 'R03.4 whole-word combinators with the right operand roles', 'R03.6 alpha scale factors saturate', 'R03.5 solid colour scaled by alpha_mul'],
+    'decides': ['R18.1 premultiplying conversions', 'R18.2 alpha-carrying image shaders scale texels with the whole-word alpha_mul family', 'R03.4 whole-word combinators with the right operand roles', 'R03.6 alpha scale factors saturate', 'R03.5 solid colour scaled by alpha_mul'],
     'does_not_decide': ['the invariant itself under blending, coverage interpolation and source-over (sw-composite arithmetic)', 'gradient and image sampling'],
     'assumptions': ['muldiv255(a, c) <= a for c <= 255; alpha_mul/lerp/over_in keep r,g,b <= a for factors <= 256 (external, sw-composite)'],
     'trusted_base': ['sw-composite 0.7.16'],
@@ -89,5 +89,86 @@ def r18_1b(ctx):
     ctx.check(ok, R, 'draw_target::Source::from(Color)|premultiplies', fb.loc(), 'Source::from(color) = Solid(SolidSource::from(color))', 'Source::from(Color) does not go through SolidSource::from(color) (the premultiplying conversion): %s' % [fmt(fb, t) for t in rts])
 
 
+def r18_2(ctx):
+    """image shaders that carry a global alpha scale every texel with sw-composite's whole-word scaling
+    (alpha_mul / fetch_*_alpha) by self.alpha: a hand-rolled lane computation that leaks one channel into its
+    neighbour produces r,g,b > a"""
+    R = 'R18.2'
+    SCALERS = ('sw_composite::alpha_mul', 'sw_composite::fetch_bilinear_alpha', 'sw_composite::fetch_nearest_alpha')
+    n_impl = n_store = 0
+    for q, b in sorted(ctx.F.bodies.items()):
+        if not (q.endswith('as raqote::blitter::Shader>::shade_span')):
+            continue
+        self_adt = q[1:].split(' as ')[0]
+        an = ctx.an(b)
+        has_alpha = _adt_has_field(ctx, self_adt, 'alpha')
+        if not has_alpha:
+            continue
+        n_impl += 1
+        for a, v, pt, kind in an.stores:
+            if kind != 'assign':
+                continue
+            n_store += 1
+            v2 = strip_casts(v, ('IntToInt',))
+            ok = v2[0] == 'call' and isinstance(v2[1], str) and v2[1] in SCALERS and is_self_field(strip_all(v2[2][-1]), 'alpha')
+            ok = ok or is_inlined_alpha_mul(v2, lambda a: is_self_field(strip_all(a), 'alpha'))
+            ctx.check(ok, R, short(q) + '|texel scaled by alpha_mul-family', b.loc(b.blocks[pt[0]]['st'][pt[1]]['sp']) if pt[1] < len(b.blocks[pt[0]]['st']) else b.loc(),
+                      'pixel = %s(.., self.alpha)' % (v2[1].split('::')[-1] if ok else ''),
+                      '%s writes %s: a shader with a global alpha must produce each pixel with alpha_mul / fetch_bilinear_alpha / fetch_nearest_alpha(.., self.alpha) (or alpha_mul written out exactly), which scale all four channels of the word alike (a hand-written lane computation can let one channel spill into its neighbour and yield r,g,b > a)' % (short(q), fmt(b, v)[:200]))
+    ctx.floor(R, 'alpha-carrying image shaders', n_impl, 4)
+    ctx.floor(R, 'pixel stores in alpha-carrying image shaders', n_store, 6)
+
+
+COMM = ('BitAnd', 'BitOr', 'Mul', 'Add', 'BitXor')
+
+
+def _canon(t):
+    """commutative operands sorted, integer constants folded (u32), casts between integer types dropped"""
+    t = strip_casts(t, ('IntToInt',))
+    if t[0] in ('const', 'cnamed'):
+        v = const_val(t)
+        return ('c', v & 0xffffffff) if isinstance(v, int) else t
+    if t[0] == 'un' and t[1] == 'Not':
+        x = _canon(t[2])
+        return ('c', (~x[1]) & 0xffffffff) if x[0] == 'c' else ('un', 'Not', x)
+    if t[0] == 'bin':
+        a, b = _canon(t[2]), _canon(t[3])
+        if t[1] in COMM and repr(a) > repr(b):
+            a, b = b, a
+        return ('bin', t[1], a, b)
+    return nosite(t)
+
+
+def _bin(op, a, b):
+    if op in COMM and repr(a) > repr(b):
+        a, b = b, a
+    return ('bin', op, a, b)
+
+
+def is_inlined_alpha_mul(v, is_alpha):
+    """v is sw-composite's alpha_mul written out: ((x & M) * a >> 8) & M | ((x >> 8) & M) * a & !M with M = 0x00ff00ff"""
+    c = _canon(v)
+    M, NM, E = ('c', 0x00ff00ff), ('c', 0xff00ff00), ('c', 8)
+    if not (c[0] == 'bin' and c[1] == 'BitOr'):
+        return False
+    for x_side in (c[2], c[3]):
+        # dig x and a out of the red/blue half: ((x & M) * a >> 8) & M
+        for cand in subterms(x_side):
+            if cand[0] == 'bin' and cand[1] == 'Mul':
+                for xm, a in ((cand[2], cand[3]), (cand[3], cand[2])):
+                    if xm[0] == 'bin' and xm[1] == 'BitAnd' and M in (xm[2], xm[3]) and is_alpha(a):
+                        x = xm[3] if xm[2] == M else xm[2]
+                        rb = _bin('BitAnd', _bin('Shr', _bin('Mul', _bin('BitAnd', x, M), a), E), M)
+                        ag = _bin('BitAnd', _bin('Mul', _bin('BitAnd', _bin('Shr', x, E), M), a), NM)
+                        if c == _bin('BitOr', rb, ag):
+                            return True
+    return False
+
+
+def _adt_has_field(ctx, adt, field):
+    a = ctx.F.adts.get(adt)
+    return bool(a) and any(f.get('name') == field for v in a.get('variants', []) for f in v.get('fields', []))
+
+
 def run(ctx):
-    engine.run_rules(ctx, [r18_1, r18_1b, dt.r03_4, dt.r03_6, dt.r03_5])
+    engine.run_rules(ctx, [r18_1, r18_1b, r18_2, dt.r03_4, dt.r03_6, dt.r03_5])
